@@ -11,10 +11,13 @@ import Driver.Util
     memory map on the file with that identity) | `r<file>` (proxy, no memory map)
   * exts: `-` or `content:pad,content:pad,…`; mat: `-` or `n,n,…` (write sizes)
   * resolve: `<compat>,<smallest>`, each a dtype code or `x` (ValueError)
-  * table: `-` or `code:wok:slope:inter:nWrites:wBytes;…` (writer externals per out dtype code)
+  * table: `-` or `code:wok:slope:inter:nWrites:wBytes;…` (writer externals per out dtype code; wok `0` =
+    make_array_writer raises WriterError, `1` = fine, `2` = `hdr.set_slope_inter` raises HeaderDataError)
   * ops: `;`-separated — `S:<dt>:<fault>:<fm>` (dt `-`|`c<code>`|`ac`|`as`|`x`; fault `-`|`k<n>`|`b<n>`;
     fm `-`|id), optionally `:<identity of the destination image file>`; `D:<code>`, `A:<c|s>`; add the
-    prefix `O` to `S` (`OS:…`) to run the ORIGINAL save.
+    prefix `O` to `S` (`OS:…`) to run the ORIGINAL save; `E:<aff|=>:<rest|=>:<pending|->`: an in-place edit of
+    the affine (`=`: unchanged) and/or of the header bytes (`rest` = id of the non-consumable header bytes
+    right after the edit, `pending` = id `update_header()` would turn them into, `-` if it would not).
 
   Output: one block per op joined by ` | `:
     `<ok|ERR:…> n=<io calls> [<io log>] <state> out=<id|->[ M=<16 ints>/<16 ints>]`  (saves)   /   `<ok|ERR:…> <state>`
@@ -67,13 +70,17 @@ def parseResolve? (s : String) : Option (Alias → Option Nat) :=
       | _, _ => none
   | _ => none
 
-def parseTable? (s : String) : Option (List (Nat × WEntry)) :=
+/-- writer outcome token: (wok, slopeRaises) -/
+def parseWok? : String → Option (Bool × Bool)
+  | "0" => some (false, false) | "1" => some (true, false) | "2" => some (true, true) | _ => none
+
+def parseTable? (s : String) : Option (List (Nat × WEntry × Bool)) :=
   if s = "-" then some [] else
     (s.splitOn ";").mapM fun e =>
       match e.splitOn ":" with
       | [c, ok, sl, i, nw, wb] =>
-          match c.toNat?, parseBool? ok, parseScl? sl, parseScl? i, nw.toNat?, wb.toNat? with
-          | some c, some ok, some sl, some i, some nw, some wb => some (c, ⟨ok, sl, i, nw, wb⟩)
+          match c.toNat?, parseWok? ok, parseScl? sl, parseScl? i, nw.toNat?, wb.toNat? with
+          | some c, some ok, some sl, some i, some nw, some wb => some (c, ⟨ok.1, sl, i, nw, wb⟩, ok.2)
           | _, _, _, _, _, _ => none
       | _ => none
 
@@ -118,11 +125,19 @@ inductive DOp where
   | save (orig : Bool) (req : SaveReq) (dest : Nat)
   | setDtype (c : Nat)
   | setAlias (a : Alias)
+  | edit (aff : Option (Option M4)) (rest : Option Nat) (pending : Option Nat)
+
+def parseKeep? {α} (f : String → Option α) (s : String) : Option (Option α) :=
+  if s = "=" then some none else (f s).map some
 
 def parseOp? (s : String) : Option DOp :=
   match s.splitOn ":" with
   | [k, dt, f, fm] =>
-      if k = "S" ∨ k = "OS" then
+      if k = "E" then
+        match parseKeep? parseAff? dt, parseKeep? String.toNat? f, parseFm? fm with
+        | some a, some r, some p => some (.edit a r p)
+        | _, _, _ => none
+      else if k = "S" ∨ k = "OS" then
         match parseDt? dt, parseFault? f, parseFm? fm with
         | some dt, some f, some fm => some (.save (k = "OS") ⟨dt, fm, f⟩ 0)
         | _, _, _ => none
@@ -168,12 +183,12 @@ structure St where
   quiet : Bool
   affs  : List (Option M4)
   datas : List Nat
-  hdrs  : List Hdr
+  hdrs  : List (Hdr × Nat)
   outs  : List (List Chunk)
   acc   : List String
 
 def showState (st : St) (img : Img) : St × String :=
-  let (hs, hid) := firstSeen st.hdrs img.core.hdr
+  let (hs, hid) := firstSeen st.hdrs (img.core.hdr, img.core.rest)
   let (as, aid) := firstSeen st.affs img.core.affine
   let (ds, did) := firstSeen st.datas img.core.data
   let h := img.core.hdr
@@ -207,6 +222,12 @@ def runOp (cls : Cls) (env : Env) (st : St) : DOp → St
       let r := step cls st.img (.setAlias a)
       let (st1, s) := showState st r.2
       { st1 with img := r.2, acc := st1.acc ++ [s!"{showErr r.1} {s}"] }
+  | .edit aff rest pending =>
+      let k := st.img.core
+      let img := { st.img with core := { k with affine := aff.getD k.affine, rest := rest.getD k.rest,
+                                                  pending := pending } }
+      let (st1, s) := showState st img
+      { st1 with img := img, acc := st1.acc ++ [s!"ok {s}"] }
 
 def handleRun (quiet : Bool) : List String → String
   | [cls, owned, hdr, alias, aff, xflip, src, exts, mat, resolve, table, ops] =>
@@ -217,9 +238,14 @@ def handleRun (quiet : Bool) : List String → String
           | some aff, some xflip, some src =>
               let writer : Nat → WEntry := fun c =>
                 match table.lookup c with
-                | some e => e
+                | some e => e.1
                 | none => ⟨false, none, none, 0, 0⟩
-              let env : Env := { owned := owned, exts := exts, mat := mat, resolve := resolve, writer := writer }
+              let bad : Nat → Bool := fun c =>
+                match table.lookup c with
+                | some e => e.2
+                | none => false
+              let env : Env := { owned := owned, exts := exts, mat := mat, resolve := resolve, writer := writer,
+                                 slopeRaises := bad }
               let img : Img := { core := { hdr := hdr, alias := alias, data := 1, affine := aff, xflip := xflip,
                                            src := src, hdrObj := 0 }, fileMap := 0 }
               let (st0, s0) := showState { img := img, quiet := quiet, affs := [], datas := [], hdrs := [],
@@ -233,6 +259,15 @@ def handleRun (quiet : Bool) : List String → String
 def handle : List String → String
   | "run" :: rest => handleRun false rest
   | "runq" :: rest => handleRun true rest
+  | ["gzhdr", kind, level, mtime, clock, path] =>
+      -- header of the gzip member written by nibabel's sink (`nib`, mtime argument given) or by plain
+      -- `gzip.GzipFile(path, 'wb', level)` (`plain`; mtime ignored); path = bytes `,`-separated
+      match level.toNat?, mtime.toNat?, clock.toNat?, parseNatList? path with
+      | some level, some mtime, some clock, some path =>
+          if kind = "nib" then ",".intercalate ((gzHeader (nibSink path level mtime) clock).map toString)
+          else if kind = "plain" then ",".intercalate ((gzHeader (plainSink path level) clock).map toString)
+          else "bad-op"
+      | _, _, _, _ => "bad-op"
   | ["matload", flip, mat, M] =>
       match parseBool? flip, parseAff? mat, parseAff? M with
       | some flip, some mat, some M =>
